@@ -43,3 +43,15 @@ Lemma T_Chan_src_sess_readhandshake : src_sess_readhandshake =
   "{ nonce := msg.GetNonce() switch { case !s.isInit && s.hsIndex == 0 && nonce == nonceInitHello: res, err := readInitHello(s.registry, s.hs, &s.privateKey, msg) if err != nil { return err } s.remoteKey = res.RemoteKey s.initHelloTime = res.Timestamp s.msgCache[1] = res.RespHello s.cipherOut, s.cipherIn = res.CipherOut, res.CipherIn s.hsIndex = 1 case s.isInit && s.hsIndex == 0 && nonce == nonceRespHello: res, err := readRespHello(s.registry, s.hs, &s.privateKey, msg) if err != nil { return err } s.msgCache[2] = res.InitDone s.cipherOut, s.cipherIn = res.CipherOut, res.CipherIn s.remoteKey = res.RemoteKey s.hsIndex = 2 case !s.isInit && s.hsIndex == 1 && nonce == nonceInitDone: res, err := readInitDone(s.hs, &s.remoteKey, s.cipherIn, s.cipherOut, msg) if err != nil { return err } s.msgCache[3] = res.RespDone s.nonce = noncePostHandshake s.hsIndex = 3 case s.isInit && s.hsIndex == 2 && nonce == nonceRespDone: if err := readRespDone(s.cipherIn, msg); err != nil { return err } s.hsIndex = 4 s.nonce = noncePostHandshake case (s.isInit && nonce%2 == 1) || (!s.isInit && nonce%2 == 0): return nil default: return errors.New(""message not for this session"") } return nil }"%string.
 Proof. reflexivity. Qed.
 
+(* p2pke Timer (Model/Timer.v): the pending flag is cleared before the callback runs *)
+Lemma T_Chan_src_ke_newtimer : src_ke_newtimer =
+  "{ t := &Timer{} t.timer = time.AfterFunc(time.Hour, func() { t.runMu.Lock() defer t.runMu.Unlock() t.mu.Lock() if !t.isPending { t.mu.Unlock() return } t.isPending = false t.mu.Unlock() fn() }) t.Stop() return t }"%string.
+Proof. reflexivity. Qed.
+
+Lemma T_Chan_src_ke_timer_reset : src_ke_timer_reset =
+  "{ t.mu.Lock() defer t.mu.Unlock() t.isPending = true t.timer.Reset(d) }"%string.
+Proof. reflexivity. Qed.
+
+Lemma T_Chan_src_ke_timer_stop : src_ke_timer_stop =
+  "{ t.mu.Lock() defer t.mu.Unlock() t.isPending = false t.timer.Stop() }"%string.
+Proof. reflexivity. Qed.
